@@ -156,14 +156,14 @@ def judge_failed_growth(profiles, line, impl_outs):
                     stored.append((int(m.group(1)), m.group(2)))
                 else:
                     nfail += 1
-            elif k == "reopen" and not seg.startswith("ok"):
+            elif k in ("reopen", "prealloc") and not seg.startswith("ok"):
                 return Verdict(oracle_ok=False, cls="reopen-fails", detail="[%s] reopen returned %s" % (prof, seg), outcome="reopen")
             elif k == "obs":
                 got = parse_obs(seg).get("offs", [])
                 for j, (off, h) in enumerate(stored):
                     if j >= len(got) or got[j] != h:
                         return Verdict(oracle_ok=False, cls="readback-differs",
-                                       detail="[%s] op %d: offset %d reads back %s, stored %s (after a growth that failed part-way)" % (prof, n, off, got[j] if j < len(got) else "?", h), outcome="readback")
+                                       detail="[%s] op %d: offset %d reads back %s, stored %s (every offset returned so far is re-read after every op)" % (prof, n, off, got[j] if j < len(got) else "?", h), outcome="readback")
                 if len(set(x[0] for x in stored)) != len(stored):
                     return Verdict(oracle_ok=False, cls="offset-reused", detail="[%s] an offset was returned twice" % prof, outcome="reuse")
     return Verdict(outcome="failed-growth/%s" % ("some-failed" if nfail else "none-failed"), nontrivial=True)
